@@ -526,7 +526,7 @@ def floors(counters, tier, extra):
         out.append("most LINE failpoints were never reached")
     if not counters.get("strace_unavailable") and not counters.get("strace_not_permitted"):
         for k in ("oslevel.faults.same_fs.write/err", "oslevel.faults.same_fs.write/kill", "oslevel.faults.other_fs.write/kill"):
-            if counters.get(k, 0) < need:
+            if counters.get(k, 0) < need // 2:
                 out.append("%s only %d" % (k, counters.get(k, 0)))
         if sum(v for k, v in counters.items() if k.startswith("oslevel.faults.") and "rename" in k) < need:
             out.append("too few rename faults")
